@@ -139,6 +139,52 @@ func init() {
 	}
 }
 
+// ladderStart is the index of the first ladder source: pipelines of steadily
+// growing length (more subqueries, more joins, more lets than anything else
+// here), which every goroutine of a child compiles in lock-step so that each
+// "first time this large" happens in all of them at the same moment.
+var ladderStart int
+
+func init() {
+	ladderStart = len(sources)
+	for k := 1; k <= 36; k++ {
+		var sb strings.Builder
+		sb.WriteString("T")
+		for i := 0; i < k; i++ {
+			fmt.Fprintf(&sb, " | project a, b, c | where a > %d", i)
+		}
+		sources = append(sources, sb.String())
+	}
+	for k := 1; k <= 10; k++ {
+		var sb strings.Builder
+		sb.WriteString("T")
+		for i := 0; i < k; i++ {
+			fmt.Fprintf(&sb, " | join kind=inner (U%d | where x > %d | project k, v%d = x) on k", i, i, i)
+		}
+		sources = append(sources, sb.String())
+	}
+	for k := 1; k <= 6; k++ {
+		var sb strings.Builder
+		for i := 0; i < k*6; i++ {
+			fmt.Fprintf(&sb, "let l%d = %d; ", i, i)
+		}
+		fmt.Fprintf(&sb, "T | where a == l%d | take l0", k*6-1)
+		sources = append(sources, sb.String())
+	}
+	// the same name written twice in every kind of list
+	sources = append(sources,
+		"T | render barchart with (title = \"a\", kind = stacked, title = \"b\", xtitle = 'x')",
+		"T | render piechart with (title = \"a\", title = \"b\")",
+		"T | project a, b, a = b + 1, c",
+		"T | extend x = 1, y = 2, x = 3",
+		"T | summarize n = count(), m = max(a), n = sum(a) by k, j, k2 = k",
+		"T | sort by a, b desc, a asc",
+		"let d = 1; let e = d; let d = 2; let e = d; T | where a == e | take d",
+		"T | join (U) on k, k, $left.a == $right.a, $left.a == $right.a",
+		"T | where a in (1, 2, 1, 2, 3) and f(a, a, a)",
+		"T | as X | as Y | join (X) on k | join (Y) on k | join (X) on k")
+}
+
 func optionSet() []*pql.CompileOptions {
 	shared := &pql.CompileOptions{Parameters: map[string]string{"p": "$1", "a": "{a:Int64}", "k": "?"}}
 	// the same three among seventeen: a larger map may be handled differently
@@ -207,9 +253,16 @@ func hashOf(s string) string {
 	return hex.EncodeToString(h[:8])
 }
 
+// isLadder: source s is one of the 52 growing pipelines.
+func isLadder(s int) bool { return s >= ladderStart && s < ladderStart+52 }
+
 func allCalls() []callID {
 	var out []callID
 	for s := range sources {
+		if isLadder(s) {
+			out = append(out, callID{"compile", s, 0}, callID{"compile", s, 3})
+			continue
+		}
 		for o := range optNames {
 			out = append(out, callID{"compile", s, o})
 		}
@@ -252,6 +305,8 @@ func child(args []string) {
 	N, _ := strconv.Atoi(args[2])
 	pause := args[3] == "1"
 	outFile := args[4]
+	ladder := len(args) > 5 && args[5] == "1"
+	var arrived atomic.Int64
 	opts := optionSet()
 	shared := opts[3]
 	snapshot := snapshotParams(opts)
@@ -283,6 +338,27 @@ func child(args []string) {
 			outs[g] = map[string]string{}
 			<-barrier
 			started.Add(1)
+			call := func(n int, c callID) {
+				defer func() {
+					if p := recover(); p != nil {
+						panics[g] = append(panics[g], fmt.Sprintf("%s: %v", c, p))
+					}
+				}()
+				out := doCall(c, opts)
+				h := hashOf(out)
+				outs[g][h] = out
+				recs[g] = append(recs[g], record{g, n, c, h})
+			}
+			if ladder {
+				for k := 0; k < 52; k++ {
+					// every goroutine arrives, then all compile the k-th pipeline at once
+					arrived.Add(1)
+					for arrived.Load() < int64(G*(k+1)) {
+						runtime.Gosched()
+					}
+					call(-1-k, callID{"compile", ladderStart + k, []int{0, 3}[(g+k)%2]})
+				}
+			}
 			for n := 0; n < N; n++ {
 				var c callID
 				if n == 0 {
@@ -294,17 +370,7 @@ func child(args []string) {
 						c = callID{"compile", rng.Intn(len(sources)), 3} // few keys, many goroutines
 					}
 				}
-				func() {
-					defer func() {
-						if p := recover(); p != nil {
-							panics[g] = append(panics[g], fmt.Sprintf("%s: %v", c, p))
-						}
-					}()
-					out := doCall(c, opts)
-					h := hashOf(out)
-					outs[g][h] = out
-					recs[g] = append(recs[g], record{g, n, c, h})
-				}()
+				call(n, c)
 			}
 		}(g)
 	}
@@ -325,6 +391,10 @@ func child(args []string) {
 		j := (i*7 + int(seed%int64(len(sources)))) % len(sources)
 		if j < 0 {
 			j += len(sources)
+		}
+		if isLadder(j) {
+			seq = append(seq, callID{"compile", j, 3})
+			continue
 		}
 		seq = append(seq, callID{"compile", j, int((seed+int64(i))%int64(len(optNames))+int64(len(optNames))) % len(optNames)}, callID{"parse", j, 0})
 	}
@@ -467,6 +537,9 @@ func runWith(c *mon.Custom, replayCase json.RawMessage) {
 	}
 	// nil / zero / empty-map equivalence, judged on the reference outputs
 	for s := range sources {
+		if isLadder(s) {
+			continue // compiled with two option values only
+		}
 		a := refOf[callID{"compile", s, 0}]
 		for o := 1; o <= 2; o++ {
 			if b := refOf[callID{"compile", s, o}]; a != b && !strings.HasPrefix(a, "REFERENCE-PROCESS-FAILED") {
@@ -528,7 +601,7 @@ func runWith(c *mon.Custom, replayCase json.RawMessage) {
 			if j.pause {
 				p = "1"
 			}
-			cmd := exec.Command("timeout", "-s", "KILL", "600", race, "c14child", fmt.Sprint(j.seed), fmt.Sprint(j.G), fmt.Sprint(callsPer), p, outFile)
+			cmd := exec.Command("timeout", "-s", "KILL", "600", race, "c14child", fmt.Sprint(j.seed), fmt.Sprint(j.G), fmt.Sprint(callsPer), p, outFile, map[bool]string{true: "1", false: "0"}[j.k%3 != 0])
 			cmd.Env = append(os.Environ(), "GORACE=halt_on_error=0 log_path="+logBase)
 			var errb bytes.Buffer
 			cmd.Stderr = &errb
